@@ -10,7 +10,7 @@ import (
 	"github.com/cloudwego/dynamicgo/internal/native/types"
 )
 
-// Generated-definition checks 291 (C02) / 1691 (C16): the REAL conv/j2t toFlags against gen/Gen_j2tflags.toFlags.
+// Generated-definition checks 291 (C02) / 1691 (C16) / 1791 (C17): the REAL conv/j2t toFlags against gen/Gen_j2tflags.toFlags.
 // All 512 settings of the nine options toFlags looks at, each with every other option off and with random settings of the
 // remaining options (which must not influence the word); the word a converter really hands to the native code
 // (NewBinaryConv / SetOptions) must be the same.
@@ -21,7 +21,7 @@ func init() {
 	for _, p := range []struct {
 		prop string
 		id   int
-	}{{"C02", 291}, {"C16", 1691}} {
+	}{{"C02", 291}, {"C16", 1691}, {"C17", 1791}} {
 		base, id := generators[p.prop], p.id
 		generators[p.prop] = func(r *rng, n int) {
 			genToFlags(g2cRng(r), id) // own stream (the base generator's stream is unchanged), first: emitted even if the base generator stops
